@@ -32,6 +32,8 @@ Values ==
     \cup {SetV({}), SetV({Small(1)}), SetV({Small(1), Small(2)}), SetV({Str("a")})}
     \cup {Arr(<<>>), Arr(<<Small(1)>>), Arr(<<Small(1), Str("a")>>), Arr(<<Arr(<<Small(1)>>)>>)}
     \cup {MapV({}), MapV({<<Str("a"), Small(1)>>}), MapV({<<Small(1), Null>>})}
+    \* collections that differ from one above in a single (nested) element only: equality is structural to full depth
+    \cup {MapV({<<Str("a"), Small(2)>>}), Arr(<<Small(2)>>), Arr(<<Arr(<<Small(2)>>)>>)}
 
 Val(v)  == [o |-> "val", v |-> v]
 Var(n)  == [o |-> "var", n |-> n]
